@@ -47,7 +47,7 @@ TARGETS = [
 ]
 BOUNDS = {
     "structure": "8 correlation types x 1..3 referenced rules (first: single-condition / two-condition / nested correlation; others: single / two-condition) x group-by (none, [user], [user, ip], alias) x generate x field-mapping pipeline (unconditional; LSC=1: bound to a logsource rule condition; PPALL=1: query post-processing applies to correlation rules too) x sub-query finalisation x typing templates",
-    "condition": "8 types x 6 operators x 5 counts (incl. fractions) x percentile",
+    "condition": "8 types x 6 operators x 7 counts (incl. fractions and 0) x percentile (50, 99.9, 0, 0.5, 90)",
     "timespan": "7 units x 4 counts x 3 rendering modes; SigmaCorrelationTimespan on every string of length <= 3 (quick) / 4 (thorough) over a 12-character alphabet (digits incl. a non-ASCII digit, units, sign, space, other letters)",
     "extended conditions": "18 expressions over 3 rule names x temporal / temporal_ordered x with / without explicit rules list",
     "outside": "more than 3 referenced rules; correlation methods other than the default one; backends overriding the phase methods",
@@ -274,12 +274,13 @@ def c10b_structure(n: int, k0: int, k1: int, k2: int, gb: int, gen: bool, pipe: 
 
 
 # ---------------------------------------------------------------- condition operator / count / percentile
-COUNTS = [1, 5, 90, 2.5, 0.5]
+COUNTS = [1, 5, 90, 2.5, 0.5, 0, 100]
+PCTS = {0: 50, 3: 99.9, 5: 0, 6: 0.5}  # percentile per count index (others: the default 90); 0 is falsy
 
 
 def check_condition(ti, oi, ci, pipe) -> bool:
     ctype, op, count = TYPES[ti], OPS[oi], COUNTS[ci]
-    docs = build(ctype, [0], 0, False, op=op, count=count, pct=(50 if ci == 0 else 99.9 if ci == 3 else None))
+    docs = build(ctype, [0], 0, False, op=op, count=count, pct=PCTS.get(ci))
     cls = corr_backend_class(False, False, 2)
     b = cls(ProcessingPipeline.from_dict(pipe_dict()) if pipe else None)
     coll = SigmaCollection.from_dicts(docs)
@@ -288,7 +289,7 @@ def check_condition(ti, oi, ci, pipe) -> bool:
     c_part = q[:-1].split("\x13C", 1)[1]
     a_part = q.split("\x12A", 1)[1].split("\x13C", 1)[0]
     field = "None" if ctype in ("event_count", "temporal", "temporal_ordered") else ("mamount" if pipe else "amount")
-    pct = ("50" if ci == 0 else "99.9" if ci == 3 else "90") if ctype == "value_percentile" else ""
+    pct = str(PCTS.get(ci, 90)) if ctype == "value_percentile" else ""
     return c_part == f"COND<{field}|{OPMAP[op]}|{count}>refs=ra" and a_part.endswith(":pct=" + pct) and ":ts=5m:" in a_part
 
 
